@@ -260,6 +260,23 @@ def post_stoich(self: Any, variables: Any, time: Any, result: Any) -> bool:
     return True
 
 
+def post_stoich_of(self: Any, variable: Any, variables: Any, time: Any, result: Any) -> bool:
+    ref = REG.get(id(self))
+    if ref is None:
+        return True
+    COUNT["Model.get_stoichiometries_of_variable"] += 1
+    vals = ref.at(_state_of(ref, variables), float(time), readouts=False)
+    exp = ref.stoichiometry(vals).get(variable, {})
+    got = {f: float(c) for f, c in dict(result).items()}
+    for f, c in exp.items():
+        if f not in got or not close(got[f], c, TOL):
+            _w("get_stoichiometries_of_variable", "coefficient differs", variable=variable, flux=f, got=got.get(f), expected=c, t=float(time))
+    for f, g in got.items():
+        if f not in exp and g != 0:
+            _w("get_stoichiometries_of_variable", "spurious coefficient", variable=variable, flux=f, got=g)
+    return True
+
+
 def attach_model() -> None:
     """Wrap the class attributes of mxlpy.Model (idempotent)."""
     global _ATTACHED  # noqa: PLW0603
@@ -278,4 +295,5 @@ def attach_model() -> None:
     wrap("get_fluxes_time_course", post_fluxes_tc)
     wrap("get_right_hand_side_time_course", post_rhs_tc)
     wrap("get_stoichiometries", post_stoich)
+    wrap("get_stoichiometries_of_variable", post_stoich_of)
     _ATTACHED = True
